@@ -223,7 +223,10 @@ def oracle(ctx):
     for ty in G.TYPES:
         good = '[' + G.SEC[ty] + ']\n' + ''.join(b + '\n' for b in G.BASE[ty])
         for why, f in BREAK:
-            singles.append((ty, why, {'d0/bad.' + ty: f(ty, good), 'd0/ok.container': '[Container]\nImage=localhost/ok\n'}))
+            # where the file lies is part of the input: directly in the search directory, or some levels down so that its path is
+            # about 0.4, 1.1, 2.5 KiB long — "logged with the path of the offending file" means the whole path, however long
+            deep = 'd0/' + ''.join(('p%d' % i + 'x' * 200 + '/') for i in range([0, 2, 5, 12][len(singles) % 4]))
+            singles.append((ty, why, {deep + 'bad.' + ty: f(ty, good), 'd0/ok.container': '[Container]\nImage=localhost/ok\n'}))
     for (ty, why, files), r in zip(singles, e2e.pmap(lambda x: run_set(x[2]), singles)):
         res.oracle_evals += 1
         srcs = by_source(r[1], r[3])
@@ -232,12 +235,27 @@ def oracle(ctx):
             fails.append(f'exit status {r[0]} although bad.{ty} cannot be used ({why})')
         if not any('ERROR' in l and 'bad.' + ty in l for l in r[2].split('\n')):
             fails.append(f'no error names bad.{ty} ({why}): {e2e.error_lines(r[2])[:4]}')
+        full = os.path.join(r[3], next(p for p in files if '/bad.' in p or p.startswith('bad.')))
+        if not any('ERROR' in l and full in l for l in r[2].split('\n')):
+            fails.append(f'no error carries the complete path of bad.{ty} ({len(full)} bytes; {why}): {[x[:80] + " … " + x[-60:] for x in e2e.error_lines(r[2])[:4]]}')
         if 'bad.' + ty in srcs:
             fails.append(f'a service was generated for bad.{ty} ({why})')
         if 'ok.container' not in srcs:
             fails.append(f'the valid unit beside bad.{ty} was not generated')
         for f in fails:
             res.oracle_failures.append(dict(op='e2e', input=files, impl_output=dict(exit=r[0], stderr=e2e.error_lines(r[2])[:4]), oracle_expectation=f))
+    # many failing files in one run: each one is logged with its path, whether it is the first or the fortieth failure
+    for n_load, n_conv in ((12, 0), (0, 12), (5, 6), (20, 20)):
+        res.oracle_evals += 1
+        many = {f'd0/l{i}.container': '[Container\nImage=x\n' for i in range(n_load)}
+        many.update({f'd0/c{i}.' + G.TYPES[i % len(G.TYPES)]: '[' + G.SEC[G.TYPES[i % len(G.TYPES)]] + ']\nBogusKey=1\n' for i in range(n_conv)})
+        many['d0/ok.container'] = '[Container]\nImage=localhost/ok\n'
+        r = run_set(many)
+        elines = [l for l in r[2].split('\n') if 'ERROR' in l]
+        unnamed = [p for p in many if p != 'd0/ok.container' and not any('/' + os.path.basename(p) + '"' in l for l in elines)]
+        if unnamed or r[0] != 1 or 'ok.container' not in by_source(r[1], r[3]):
+            res.oracle_failures.append(dict(op='e2e', input=dict(files_failing_to_load=n_load, files_failing_to_convert=n_conv), impl_output=dict(exit=r[0], error_lines=len(elines), last=elines[-2:]),
+                                            oracle_expectation=f'exit status 1, the valid unit generated, and every one of the {n_load + n_conv} failing files named in an error line; not named: {unnamed[:8]}'))
     # references between units of the *same* priority (a container joining another container's network): the result must
     # not depend on which of the two is discovered first
     for a, b in (('web', 'db'), ('a', 'z'), ('z', 'a'), ('front', 'back')):
